@@ -16,7 +16,7 @@ RULE = ('consistency: arbitrary (n,2) pseudo-observation arrays (reference-copul
         'anti-monotone, independent, exact tau=0, raw point lists, constant columns), n 2..3000; oracle: returned type in '
         '{Frank,Clayton,Gumbel}, tau == tau-b, theta == the family calibration, tau<=0 => Frank, and determinism (equal '
         'copies, different global RNG states, unrelated calls in between, deprecated alias). recovery: per '
-        '(family, tau in {.3,.4,.5,.6,.7}, n in {3000,5000}) cell, K datasets from an independent reference sampler '
+        '(family, tau in {.3,.4,.5,.6,.7}, n in {3000,5000}) cell plus (family, tau, n) in {(.3,12000),(.6,20000)}, K datasets from an independent reference sampler '
         '(K=200 quick, 1000 thorough); fails only if the success count is significantly (exact binomial, alpha 1e-13) '
         'below the stated 70%. Non-trivial: tau > 0.05 (all three candidates compete); distinct = distinct generated case.')
 ASSUMPTIONS = [
@@ -94,6 +94,9 @@ def recovery_cells(tier, seed):
             for tau in (0.3, 0.4, 0.5, 0.6, 0.7):
                 for n in (3000, 5000):
                     cases.append({'family': fam, 'tau': tau, 'n': n, 'seed': int(rs.randint(0, 2 ** 31 - 1)), 'K': K})
+            # "n >= 3000": a few large samples per family as well (fewer datasets, they are expensive)
+            for tau, n in ((0.3, 12000), (0.6, 20000)):
+                cases.append({'family': fam, 'tau': tau, 'n': n, 'seed': int(rs.randint(0, 2 ** 31 - 1)), 'K': max(40, K // 5)})
     order = rs.permutation(len(cases))
     return [cases[i] for i in order]
 
